@@ -936,7 +936,8 @@ class Interp:
                 val.is_property = True
             return val
         if isinstance(d, LibRef) and d.name in ("functools.lru_cache", "functools.cache"):
-            return val
+            # @lru_cache without parentheses
+            return self.lib["functools.lru_cache"](self, val)
         if isinstance(d, tuple) and d and d[0] == "lru_cache_call":
             return val
         if isinstance(d, tuple) and d and d[0] == "setter":
